@@ -363,6 +363,15 @@ UNITS['U22n'] = dict(
                  'R10: Column reduced to (name, size); Options reduced to max_partition_size_bytes; PartitionMetadata reduced to the two fields the lookups read'],
     not_covered=['column sets outside the pool', 'the lookup rebuilt from the catalogue file (MetaStore::deserialize, versions v0-v3)', 'partition file names (sanitize_table_name is U24k)', 'lazy loading protocol around the loaded flag (concurrent)'])
 
+UNITS['U42n'] = dict(
+    kind='native', crate='kani/U42n', bin='vx_u42n', needs_lock=True, timeout_s=900,
+    pool='every history of <= 3 (thorough: 4) steps over {restart, a batch for table t whose columns are any subset of a 4-name pool (case pair, non-ASCII, 70 bytes) plus timestamp, optionally with its first column empty (NULLs only)} - 32 step shapes',
+    title='BOUNDED exhaustive enumeration (native, not a proof): catalogue glue - ingest_efficient catalogue part and ingest loop (slices), create_if_empty_no_ingest, Table::{init_column_names, ingest_homogeneous, column_names, new_column_names} (whole fns), the name set a table is created with (slice of Table::new), the table/column the column list is read from (slice): every table\'s name set equals the columns it holds, the catalogue lists each column and each table exactly once, across restarts',
+    assumptions=['HashMap / HashSet / String are outside both verifiers; the real functions are compiled natively and enumerated over a stated pool of histories (bounded stand-in, reported under coverage.bounded)',
+                 'A-query: reading the catalogue column returns the strings stored in it (query engine, C01); which table and column are read is taken from the real code (slice of schedule_query_column_names)',
+                 'R10: Table reduced to (name, buffer, column_names); Buffer records the ingested columns; restart re-creates every table that holds data with Table::new(name, lru, None) as restore_from_disk does; write-ahead logging, flush and the wal-size wait are left out'],
+    not_covered=['histories longer than the bound, more than one user table', 'flush / compaction themselves (the name set they use is checked, not their code)', 'WAL replay order at restart', 'SELECT * expansion in run_query', 'concurrent ingestion'])
+
 UNITS['U23k'] = dict(
     kind='kani', crate='kani/U23', timeout_s=600,
     title='BOUNDED (strings <= 2 ASCII bytes): column_buffer.rs is_lowercase_hex / is_uppercase_hex',
@@ -562,11 +571,11 @@ PROPS = {
                 technique='bounded Kani harnesses over statement / expression slices of the real sanitize_table_name, plus a bounded native enumeration of the mechanically extracted routing functions (both labelled bounded, not counted as discharged obligations)',
                 explanation='U24k: two bounded Kani harnesses over slices of storage.rs sanitize_table_name - (1) the decision whether the cleaned name is used verbatim or carries the digest of the original, for all cleaned / requested names of two characters over {E,e,-,.,/,_,7,space}; (2) the cleaning steps after lower-casing, for all two-character names over the same alphabet. U22n: inner_locustdb::subpartition, the lookup construction at its two sites and the reader functions of PartitionMetadata, extracted mechanically, compiled natively and run on every set of up to 4 column names from a 16-name pool under every grouping: each column must be looked up in the file it was written to, file keys must be distinct, and the loaded flag must follow the file. No obligation is discharged deductively for this property.',
                 assumptions=[], not_covered=['column sets outside the pool of U22n', 'the lookup rebuilt from the catalogue file (MetaStore::deserialize)', 'partition file names', 'table names longer than 2 characters, non-ASCII table names', 'lazy loading of sub-partitions (concurrent)']),
-    'C13': dict(level='proof', units=['U02', 'U27k', 'U17k'],
+    'C13': dict(level='proof', units=['U02', 'U27k', 'U17k', 'U42n'],
                 level_text='Verus proofs: a column missing from a batch is padded with NULLs for that batch (extend_to_largest body), a column first seen late reads NULL for all earlier rows (ColumnBuffer::null + push_*), per-column append of every input representation; complete Kani proof that a column missing from a partition is given exactly the rows the WHERE clause keeps, for every filter kind; bounded Kani harnesses (fixed row shapes, labelled bounded) that the client-side event buffer leaves NULL exactly the rows that received no value',
-                level_note='catalogue tables, lazy column_names initialisation, SELECT * expansion and the HashMap iteration around the per-column code are not covered',
+                level_note='the catalogue glue (catalogue rows added to a batch, lazy column_names initialisation, name registration) is covered only by a bounded native enumeration of histories over the extracted real functions (U42n, labelled bounded); SELECT * expansion and compaction itself are not covered',
                 technique='contract-based deductive verification (Verus) of extracted functions and statement slices',
-                assumptions=[], not_covered=['catalogue (_meta_tables, _meta_columns_*)', 'compaction column list', 'SELECT * expansion']),
+                assumptions=[], not_covered=['catalogue beyond the bounded histories of U42n (one user table, <= 3 steps)', 'the compaction code that uses the name set', 'SELECT * expansion']),
     'C08': dict(level='proof', units=['U18k', 'U02', 'U24k', 'U39n'],
                 level_text='complete Kani proofs of the WAL cursor primitives, of the replay-or-delete classification at recovery and of the cursor field written to / read from the catalogue; Verus proof that compaction appends every row of every input partition once, in order (compact_append slice); bounded check that two table names share a directory only if identical (narrow: primitives, not the protocol)',
                 level_note='the check catches a broken cursor primitive or classification, not a broken ordering of persist / advance / delete across threads; history composition is not covered',
